@@ -7,10 +7,11 @@ Values on a line (tokens; byte strings in hex, `-` = empty; numbers decimal):
   <ed>  = <np> <producer>* <nd> (<name> <producing> <weight>)*
   <pt>  = <prevHash> <endHash> <totalWeight> <n> (<name> <expected> <factual> <weight>)*      entries sorted by name
 Answers (canonical printing, the same on the Go side):
-  EDTEXT = p=<np>[<producer>,…] d=<nd>[<name>/<producing>/<weight>,…]
-  PTTEXT = prev=<h> end=<h> total=<w> n=<k>[<name>/<expected>/<factual>/<weight>,…]           entries sorted by name
+  EDTEXT = p=<np>/<number of different producers> d=<nd> [<producer>,…] [<name>/<producing>/<weight>,…]
+  PTTEXT = n=<k> total=<w> prev=<h> end=<h> [<name>/<expected>/<factual>/<weight>,…]          entries sorted by name
 
-  cs-ed-enc <ed>                          | <hex>      `marshalED` of the value; compared byte for byte with the real Marshal
+  cs-ed-enc <ed> <hex>                    | ok         `marshalED` of the value = the bytes of the real Marshal, byte for byte
+                                                       (otherwise `differs@<index>:model=…,real=…,lengths=…`)
   cs-ed-dec <hex>                         | EDTEXT     `unmarshalED` of the REAL bytes (`error` when undecodable)
   cs-pt-enc <pt> <hex>                    | ok         the real bytes decode (`unmarshalPoint`) to a point whose canonical
                                                        form is <pt>, and re-encoding the decoded point IN THE ORDER READ
@@ -22,7 +23,7 @@ Answers (canonical printing, the same on the Go side):
   cs-db open <inst> <ecap> <pcap>                      a `storage.DB` over the shared backing map (`Store.openOn`)
   cs-db store-ed <inst> <hash> <ed>                    `storeElection`
   cs-db get-ed <inst> <hash>              | EDTEXT / nil / error      `getElection`
-  cs-db raw-ed <hash>                     | <hex> / nil               the backing bytes under `electionKey hash`
+  cs-db raw-ed <hash> <hex>               | ok / nil                  the model's backing bytes under `electionKey hash` = the real ones
   cs-db store-pt <inst> <prefix> <height> <pt>         `storePoint`
   cs-db get-pt <inst> <prefix> <height>   | PTTEXT / nil / error      `getPoint`
   cs-db del-pt <inst> <prefix> <height>                `deletePoint`
@@ -65,12 +66,12 @@ def csParsePoint : List String → Option (Point × List String)
   | _ => none
 
 def csShowED (e : ElectionData) : String :=
-  s!"p={e.producers.length}[" ++ ",".intercalate (e.producers.map showHex) ++ s!"] d={e.delegations.length}[" ++
+  s!"p={e.producers.length}/{e.producers.eraseDups.length} d={e.delegations.length} [" ++ ",".intercalate (e.producers.map showHex) ++ "] [" ++
     ",".intercalate (e.delegations.map (fun d => s!"{showHex d.name}/{showHex d.producing}/{d.weight}")) ++ "]"
 
 def csShowPoint (p : Point) : String :=
   let c := p.canon
-  s!"prev={showHex c.prevHash} end={showHex c.endHash} total={c.totalWeight} n={c.pillars.length}[" ++
+  s!"n={c.pillars.length} total={c.totalWeight} prev={showHex c.prevHash} end={showHex c.endHash} [" ++
     ",".intercalate (c.pillars.map (fun e => s!"{showHex e.1}/{e.2.expected}/{e.2.factual}/{e.2.weight}")) ++ "]"
 
 def csShowAnswer {α : Type} (sh : α → String) : Option (Option α) → String
@@ -78,10 +79,23 @@ def csShowAnswer {α : Type} (sh : α → String) : Option (Option α) → Strin
   | some none => "nil"
   | some (some v) => sh v
 
+def csFirstDiff : Bytes → Bytes → Nat → Option Nat
+  | [], [], _ => none
+  | a :: as, b :: bs, i => if a = b then csFirstDiff as bs (i + 1) else some i
+  | _, _, i => some i
+
+/-- `ok`, or where the model's bytes and the real bytes part -/
+def csCompareBytes (model real : Bytes) : String :=
+  match csFirstDiff model real 0 with
+  | none => "ok"
+  | some i => s!"differs@{i}:model={showHex ((model.drop i).take 24)},real={showHex ((real.drop i).take 24)},lengths={model.length}/{real.length}"
+
 def pureConsStore : List String → Option String
   | "cs-ed-enc" :: rest => do
       let (e, left) ← csParseED rest
-      if left ≠ [] then none else pure (showHex (marshalED e))
+      match left with
+      | [h] => pure (csCompareBytes (marshalED e) (← ofHex h))
+      | _ => none
   | ["cs-ed-dec", h] => do
       let b ← ofHex h
       pure (match unmarshalED b with
@@ -131,10 +145,11 @@ def csDbStep (st : CsDbSt) : List String → Option (CsDbSt × String)
       match getElection s (← ofHex h) with
       | none => pure (st, "error")
       | some (s', r) => pure (st.put inst s', csShowAnswer csShowED (some r))
-  | ["cs-db", "raw-ed", h] => do
+  | ["cs-db", "raw-ed", h, real] => do
+      let real ← ofHex real
       pure (st, match kvGet st.kv (electionKey (← ofHex h)) with
         | none => "nil"
-        | some b => showHex b)
+        | some b => csCompareBytes b real)
   | "cs-db" :: "store-pt" :: inst :: i :: t :: rest => do
       let s ← st.store inst
       let (p, left) ← csParsePoint rest
